@@ -93,7 +93,7 @@ def run_state(s):
         mt = [np.einsum("lk,ijk->ijl", Tw, m) * np.array([1, B, B]) for m in ms]
         pi = aero(mt, syms, 0.0, 0.0, 0.0, False)
         Fi = [np.einsum("lk,ijk->ijl", Tw.T, F * np.array([1 / B**4, 1 / B**3, 1 / B**3])) for F in forces(pi, n)]
-        sc = max(max(np.abs(F).max() for F in Fi), 1e-300)
+        sc = max(max(np.abs(F).max() for F in Fi), gen.force_floor(1.1, 50.0, ms))
         for k in range(n):
             validated += 1
             e = np.abs(Fc[k] - Fi[k]).max() / sc
@@ -108,7 +108,7 @@ def run_state(s):
         pc = aero(ms, syms, s["alpha"], 0.0, 0.0, True, om_)
         pn = aero(ms, syms, s["alpha"], 0.0, 0.0, False, om_)
         Fc, Fn = forces(pc, n), forces(pn, n)
-        sc = max(max(np.abs(F).max() for F in Fn), 1e-300)
+        sc = max(max(np.abs(F).max() for F in Fn), gen.force_floor(1.1, 50.0, ms))
         for k in range(n):
             validated += 1
             e = np.abs(Fc[k] - Fn[k]).max() / sc
@@ -125,7 +125,7 @@ def run_state(s):
     else:
         lad = [0.0, 1e-6, 1e-4, 1e-2, 0.1]
         Fs = [np.concatenate([F.ravel() for F in forces(aero(ms, syms, s["alpha"], 0.0, M, True), n)]) for M in lad]
-        sc = max(np.abs(Fs[0]).max(), 1e-300)
+        sc = max(np.abs(Fs[0]).max(), gen.force_floor(1.1, 50.0, ms))
         d = [np.abs(F - Fs[0]).max() / sc for F in Fs]
         for k in range(1, len(lad)):
             validated += 1
